@@ -23,7 +23,8 @@ RULE = ('ISAs with 1..3 macros of 1..3 variants and 1..4 steps whose templates n
         'programs are accepted, or the placeholder is unfillable; classes: partial-byte step, relative step at position '
         '>= 2, forward reference, multi-variant. Distinct = SHA-1 of the case JSON.')
 ASSUMPTIONS = [
-    'placeholders stand for whole operands (textual substitution into a larger expression is precedence dependent)',
+    'where a placeholder is part of a larger expression (@ARG(0) * 2) the argument text is put there as it stands, as the property says: '
+    'both sources are assembled by the tool, so precedence acts on the same text',
     '@ARG of an indirect register operand written with "-" expands to "0 - offset" (pinned from the tree); '
     '@ARG of an operand that has no argument is unfillable',
 ]
@@ -143,6 +144,10 @@ def _macro_variant(draw, nops_choices=(0, 1, 1, 2, 2), like=None, allow_bad=True
                 if numeric_like and k < 6:
                     i = draw(st.sampled_from(numeric_like))
                     slots.append(draw(st.sampled_from([f'@ARG({i})', f'@OP({i})'])))
+                    if slot_set in ('imm8', 'addr') and draw(st.integers(0, 4)) == 0:
+                        # the placeholder as part of a larger expression: the argument text is put there as it stands
+                        slots[-1] = draw(st.sampled_from(['@ARG(%d) * 2', '2 * @ARG(%d)', '100 - @ARG(%d)', '@ARG(%d) - 1',
+                                                          '@ARG(%d) / 2', '300 - @ARG(%d) * 2'])) % i
                 elif slot_set in ('rel', 'rele'):
                     slots.append(draw(st.sampled_from(LABELS)))
                 else:
@@ -250,6 +255,11 @@ def _operand(draw, sname, labels):
         if draw(st.integers(0, 9)) == 0:
             return {'k': 'expr', 'e': ['num', ord('@'), 'chr']}
         return {'k': 'expr', 'e': isagen.value_ast(draw, draw(st.integers(0, 255)), None)}
+    if sname in ('addr', 'imm8') and draw(st.integers(0, 5)) == 0:
+        # an argument that is a sum or difference itself
+        a, b = draw(st.integers(1, 60)), draw(st.integers(1, 30))
+        left = ['lab', draw(st.sampled_from(labels))] if sname == 'addr' and draw(st.booleans()) else ['num', a + b, 'dec']
+        return {'k': 'expr', 'e': ['bin', draw(st.sampled_from(['+', '-'])), left, ['num', b, 'dec']]}
     if sname == 'addr':
         if draw(st.booleans()):
             return {'k': 'expr', 'e': ['lab', draw(st.sampled_from(labels))]}
